@@ -416,7 +416,13 @@ fn part_a(maxlen: usize, acc: &mut Acc, worker: usize, nworkers: usize) {
 // ---------------------------------------------------------------------------------------------
 // part B: adversarial operands x every operand position x every follower
 // ---------------------------------------------------------------------------------------------
-const EXPR_CORPUS: [&str; 44] = [
+const EXPR_CORPUS: [&str; 50] = [
+    "then",
+    "map",
+    "and_then",
+    "|v| then",
+    "|_| map",
+    "|v| -> u8 { and_then }",
     "|v| -> i32 { v }",
     "|v: i32| -> Option<i32> { Some(v) }",
     "|v: u8| -> u8 { v + 1 }",
@@ -472,7 +478,7 @@ const TYPE_CORPUS: [&str; 8] = [
     "Vec<(u8, Vec<Vec<u8>>)>",
     "std::collections::BTreeMap<u8, Vec<u8>>",
 ];
-const MEMBER_CORPUS: [&str; 5] = ["iter().map(|x| -> u8 { *x })", "get::<A, B>(1)", "0", "await", "collect::<Vec<Vec<u8>>>()"];
+const MEMBER_CORPUS: [&str; 7] = ["iter().map(|x| -> u8 { *x })", "get::<A, B>(1)", "0", "await", "collect::<Vec<Vec<u8>>>()", "then", "map"];
 
 fn part_b(acc: &mut Acc) {
     let followers: Vec<(usize, bool, bool, u8)> = instances().into_iter().filter(|t| t.0 != usize::MAX).collect();
@@ -520,6 +526,11 @@ fn part_b(acc: &mut Acc) {
     // adversarial initial values and handler expressions, 1..3 branches
     for adv in EXPR_CORPUS.iter() {
         if !operand_admissible(adv, false) {
+            continue;
+        }
+        // at the START of an item `then =>` / `map =>` / `and_then =>` IS a handler (by design): a bare handler keyword is not an
+        // initial value
+        if ["then", "map", "and_then"].contains(adv) {
             continue;
         }
         for fi in 0..followers.len() {
